@@ -50,7 +50,11 @@ func main() {
 	flag.BoolVar(&dumpNormalised, "dump-normalised", false, "developer aid: print the files rewritten by the helper-expansion pass")
 	genInv := flag.Bool("gen-inventory", false, "developer aid: print the function inventory of the tree at -repo")
 	dbgScope := flag.String("debug-scope", "", "developer aid: print the cmd functions reachable from a command type")
+	allProps := flag.Bool("all", false, "developer aid: load the tree at -repo once and run the rules of every property; prints one line per property (ok / FAIL with the first report) and writes no evidence; exit 1 if any fails")
 	flag.Parse()
+	if *allProps {
+		os.Exit(runAll(*repo, *verif))
+	}
 	if *dbgScope != "" {
 		debugScope(*repo, *dbgScope)
 		return
@@ -295,4 +299,62 @@ func debugScope(repo string, tn string) {
 	for _, n := range names {
 		fmt.Println(n)
 	}
+}
+
+// runAll: developer aid used by the mutation and refactoring campaigns (tools/): every property's rules on one load.
+func runAll(repo, verif string) int {
+	if verif == "" {
+		verif = "/verif"
+	}
+	w, err := loadWorld(LoadConfig{Dir: repo})
+	if err != nil {
+		fmt.Println("LOAD-FAILED", err)
+		return 2
+	}
+	known, _ := loadKnownFindings(filepath.Join(verif, "KNOWN_FINDINGS.txt"))
+	var ids []string
+	for id := range properties {
+		ids = append(ids, id)
+	}
+	sort.Strings(ids)
+	code := 0
+	for _, id := range ids {
+		def := properties[id]
+		sub := newReport(def.ID, "quick")
+		ruleG0(w, sub)
+		func() {
+			defer func() {
+				if p := recover(); p != nil {
+					sub.Undecided("G.panic", "analyser", "-", fmt.Sprint(p))
+				}
+			}()
+			def.Run(w, sub)
+		}()
+		sub.checkFloors()
+		var bad []string
+		for _, o := range sub.Obligs {
+			if o.Verdict == Discharged {
+				continue
+			}
+			isKnown := false
+			for _, k := range known {
+				if k.Property == def.ID && k.Rule == o.Rule && k.Key == o.Key {
+					isKnown = true
+				}
+			}
+			if !isKnown {
+				bad = append(bad, fmt.Sprintf("%s: %s %s [%s] %s", o.Pos, strings.ToUpper(string(o.Verdict)), o.Rule, o.Key, o.Detail))
+			}
+		}
+		if len(bad) == 0 {
+			fmt.Printf("%s ok\n", id)
+			continue
+		}
+		code = 1
+		sort.Strings(bad)
+		for _, b := range bad {
+			fmt.Printf("%s FAIL %s\n", id, b)
+		}
+	}
+	return code
 }
